@@ -31,6 +31,13 @@ impl Shards {
 
         self.data
             .resize(self.shard_count * self.shard_len_64, [0; 64]);
+        #[cfg(feature = "verif-hooks")]
+        crate::verif::poison(&mut self.data);
+    }
+
+    #[cfg(feature = "verif-hooks")]
+    pub(crate) fn verif_poison(&mut self) {
+        crate::verif::poison(&mut self.data);
     }
 
     pub(crate) fn insert(&mut self, index: usize, shard: &[u8]) {
